@@ -57,6 +57,9 @@ func c12paths() []c12path {
 			// the accepting node's clock behind / ahead of the first session's node
 			if pl == 2 && (len(s) <= 3 || vk.Thorough()) {
 				out = append(out, c12path{pl, false, -30, s}, c12path{pl, false, 30, s})
+				if len(s) <= 2 {
+					out = append(out, c12path{pl, false, -45, s}, c12path{pl, false, 45, s}, c12path{pl, false, -3600, s})
+				}
 			}
 		}
 	}
